@@ -53,7 +53,7 @@ Proof.
 Qed.
 
 (* ---------------------------------------------------------------- vector registers *)
-Definition reported_vec (n : nat) : op_rw := zext_non_vec (op_reset fW (N.of_nat n) kIdBad) grp_vec.
+Definition reported_vec (n : nat) : op_rw := zext_non_vec (op_reset fW (N.of_nat n) kIdBad) ones64.   (* ones64 = the vector group's entry *)
 Definition reported_avx_vec (n : nat) : op_rw := zext_avx_vec (op_reset fW (N.of_nat n) kIdBad).
 
 Definition vec_mask_row (n : nat) : bool :=
@@ -178,21 +178,21 @@ Lemma generic_op_gp_masks T mode64 row i (d : gp_dest) id :
   let o := generic_op T (native_gp_size mode64) row i (OReg rt id) in
   o_w o = o_w (reported_gp mode64 d (dest_size d)) /\ o_e o = o_e (reported_gp mode64 d (dest_size d)).
 Proof.
-  intros rt dsc HW Hw o. subst o. unfold generic_op. fold dsc.
+  intros rt dsc HW Hw o. subst o. unfold generic_op, generic_op_v. fold dsc.
   change (is_reg_or_mem (OReg rt id)) with true. cbn [negb].
   rewrite HW, Hw. cbn [andb]. rewrite N.eqb_refl.
   destruct d, mode64; subst rt; cbn; split; reflexivity.
 Qed.
 
 Lemma generic_op_vec_masks T native row i rt id :
-  In rt [11; 12; 13] ->
+  In rt [11; 12; 13] -> group_byte_mask T grp_vec = ones64 ->
   let dsc := nthN (t_op T) (nth i (rr_ops row) 0) d_op in
   test (clear (or_flags dsc) fZExt) fW = true -> or_w dsc = 0 -> test (or_flags dsc) fZExt = true ->
   let o := generic_op T native row i (OReg rt id) in
   o_w o = o_w (reported_vec (N.to_nat (reg_size rt))) /\ o_e o = o_e (reported_vec (N.to_nat (reg_size rt))).
 Proof.
-  intros Hrt dsc HW Hw HZ o. subst o. unfold generic_op. fold dsc.
+  intros Hrt Hg dsc HW Hw HZ o. subst o. unfold generic_op, generic_op_v. fold dsc. unfold grp_vec in Hg.
   change (is_reg_or_mem (OReg rt id)) with true. cbn [negb].
   rewrite HW, Hw, HZ. cbn [andb]. rewrite N.eqb_refl.
-  destruct Hrt as [<- | [<- | [<- | []]]]; cbn; split; reflexivity.
+  destruct Hrt as [<- | [<- | [<- | []]]]; cbn [reg_group reg_size N.eqb Pos.eqb grp_gp]; rewrite Hg; cbn; split; reflexivity.
 Qed.
